@@ -696,7 +696,7 @@ func Run(r *vk.Run) {
 		}
 		p, err := world.ProduceChain(ctx, spec, keys)
 		if err != nil {
-			r.Violation("producer", err.Error(), nil)
+			r.Inconclusive("the aggregator producing the reference chain failed (not this property's business): " + err.Error())
 			return
 		}
 		for k := 0; k < r.N(15, 60); k++ {
